@@ -331,6 +331,12 @@ let q_struct (k : int) (it : item) (args : string list) : string =
         | SingleNamed (n, r) -> string_of_str n ^ ":" ^ (if r then "v" else "r") in
       let arm (i, b) = Printf.sprintf "v%d:%s" (i_nat i) (match b with AStr l -> "S:" ^ hex_of_str l | AInner sg -> "I:" ^ single sg) in
       "[" ^ String.concat ";" (List.map arm c.mc_arms @ (if c.mc_wild_panic then ["W"] else [])) ^ "]") (gen_as_ref it)
+  | ["EnumIs"] ->
+    res_str (fun ms -> "[" ^ String.concat ";" (List.map (fun m -> Printf.sprintf "%s:v%d" (string_of_str m.im_name) (i_nat m.im_variant)) ms) ^ "]") (gen_is it)
+  | ["EnumTryAs"] ->
+    res_str (fun ms -> "[" ^ String.concat ";" (List.concat_map (fun m ->
+        let b = string_of_str m.tm_base and v = i_nat m.tm_variant and n = i_nat m.tm_nfields in
+        [Printf.sprintf "%s:val:v%d:%d" b v n; Printf.sprintf "%s_ref:ref:v%d:%d" b v n; Printf.sprintf "%s_mut:mut:v%d:%d" b v n]) ms) ^ "]") (gen_try_as it)
   | ["EnumMessage"] ->
     res_str (fun c ->
       let tbl arms wild = "[" ^ String.concat ";" (List.map (fun (i, l) -> Printf.sprintf "v%d:%s" (i_nat i) (hex_of_str l)) arms @ (if wild then ["W"] else [])) ^ "]" in
